@@ -94,7 +94,7 @@ func (c *wouldApplyContext) wouldApplyGSUB(table tables.GSUBLookup) bool {
 		return len(c.glyphs) == 1 && ok
 
 	case tables.LigatureSubs:
-		if !ok {
+		if !ok || index >= len(data.LigatureSets) { // a range coverage may yield any index
 			return false
 		}
 		ligatureSet := data.LigatureSets[index].Ligatures
@@ -158,14 +158,25 @@ func (c *otApplyContext) applyGSUB(table tables.GSUBLookup) bool {
 			c.replaceGlyph(GID(inner.SubstituteGlyphIDs[index]))
 		}
 
+	// the index given by a range coverage (format 2) is not bounded by Coverage.Len():
+	// it is checked against the arrays of the subtable
 	case tables.MultipleSubs:
+		if index >= len(data.Sequences) {
+			return false
+		}
 		c.applySubsSequence(data.Sequences[index].SubstituteGlyphIDs)
 
 	case tables.AlternateSubs:
+		if index >= len(data.AlternateSets) {
+			return false
+		}
 		alternates := data.AlternateSets[index].AlternateGlyphIDs
 		return c.applySubsAlternate(alternates)
 
 	case tables.LigatureSubs:
+		if index >= len(data.LigatureSets) {
+			return false
+		}
 		ligatureSet := data.LigatureSets[index].Ligatures
 		return c.applySubsLigature(ligatureSet)
 
@@ -192,6 +203,9 @@ func (c *otApplyContext) applyGSUB(table tables.GSUBLookup) bool {
 	case tables.ReverseChainSingleSubs:
 		if c.nestingLevelLeft != maxNestingLevel {
 			return false // no chaining to this type
+		}
+		if index >= len(data.SubstituteGlyphIDs) {
+			return false
 		}
 		lB, lL := len(data.BacktrackCoverages), len(data.LookaheadCoverages)
 
